@@ -701,7 +701,8 @@ func writeEvidence(pd propDef, tier string, seed uint64, a *agg, runWall, wall f
 			"simulated_time_s":        float64(a.simMs) / 1000,
 			"runs_per_hour":           perHour,
 			"seeds_per_hour":          perHour,
-			"faults_fired":            a.faults,
+			"faults_fired":            faultsOnly(a.faults, false),
+			"workload_features":       faultsOnly(a.faults, true),
 			"probes_hit":              a.probes,
 			"yield_parks":             a.parks,
 			"world_stats":             a.stats,
@@ -723,6 +724,17 @@ func writeEvidence(pd propDef, tier string, seed uint64, a *agg, runWall, wall f
 	os.MkdirAll(filepath.Join(root, "evidence"), 0o755)
 	b, _ := json.MarshalIndent(ev, "", " ")
 	os.WriteFile(filepath.Join(root, "evidence", pd.ID+".json"), b, 0o644)
+}
+
+// faultsOnly splits injected faults from workload features ("w:" keys).
+func faultsOnly(m map[string]int, features bool) map[string]int {
+	o := map[string]int{}
+	for k, v := range m {
+		if strings.HasPrefix(k, "w:") == features {
+			o[k] = v
+		}
+	}
+	return o
 }
 
 var realComponents = []string{"pkg/mosn Init/Start", "pkg/server", "pkg/network (listener accept loop, connection, filter manager)", "pkg/proxy", "pkg/stream/**", "pkg/protocol/**", "pkg/router", "pkg/upstream/cluster", "pkg/sync worker pool", "mosn.io/pkg buffers/timers"}
